@@ -13,7 +13,7 @@ CONFIG = {
     "modelled": ["bbs.Register/Login/CheckPasswd/ChangePasswd/ChangeEmail/CheckExistsUser", "bbs.UUserID.ToRaw/ToUUserID", "ptt.Register/NewRegister/SetupNewUser/isBadUserID/isReservedUserID",
                  "ptt.Login/LoginQuery (guest test on the stored id: exact C-string equality)/userLogin/getNewUtmpEnt (occupancy)", "ptt.ChangePasswd/CheckPasswd/ChangeEmail/GetUser/GetUID", "ptt.InitCurrentUser, pwcuLoginSave (as: rewrites the rest of the own record)",
                  "cmbbs.GenPasswd (zero-hash rule)/PasswdLoadUser/PasswdQuery/PasswdQueryPasswd/PasswdUpdate/PasswdUpdatePasswd/PasswdUpdateEmail",
-                 "cache.SearchUserRaw/DoSearchUserRaw/SetUserID (abstractly)", "ptttype.UserID_t.IsValid, UID.IsValid", "types.Cstrcmp/Cstrcasecmp/Cstrlen/Isalpha/Isnumber/Isalnum/CcharTolower"],
+                 "cache.SearchUserRaw/DoSearchUserRaw/SetUserID (abstractly)", "ptttype.UserID_t.IsValid, UID.IsValid", "ptttype.initReservedUserIDs (driven, not modelled)", "types.Cstrcmp/Cstrcasecmp/Cstrlen/Isalpha/Isnumber/Isalnum/CcharTolower"],
     "assumptions": [
         "hypothesis of the refinement theorems (C02's unprovable clause (d)): hashes generated for one effective key do not verify a password with another effective key, for the passwords that occur (Sep C pws); P-hat evaluates it on every run for the pool passwords (key hash:mask)",
         "'the current password' means 'a password with the same effective key' (first 8 bytes up to a NUL, 7 bits each): crypt(3) semantics, inside the property; the empty password and a leading NUL give a locked account (all-zero hash)",
@@ -22,6 +22,7 @@ CONFIG = {
         "registration judges the id as submitted; the other entry points read a submitted id as a C string (a lookup by \"qb\\0cd\" addresses \"qb\"): recorded (lookup_reads_c_string), not judged",
         "stored hashes come from GenPasswd (or are all-zero / never-verifying): CheckPasswd on a stored hash whose salt byte is >= 128 panics (C02 fcrypt_panics_iff) and is outside the model",
         "the in-memory guest/admin permission overlay of InitCurrentUser is not observable through the driven entry points; its guest test is tied by the regenerated text only (guest_test_source)",
+        "the reserved list is a parameter of the model; the harness feeds it through etc/reserved.id + ptttype.InitConfig (the real loader) and P-hat compares the loaded list with the file (key reserved:loader); reserved entries are non-empty and free of blanks/control bytes (the file format)",
         "concurrency: proved only for read-only requests (concurrent_checks_schedule_free); for writers on different accounts the model runs the groups one after the other and every run compares the real concurrent execution with it (conc op) and judges it per account (P-hat keys conc:*); concurrent requests that write the SAME account, concurrent first logins (session-slot race) and",
         "concurrent registrations (property C15) are outside; one caller at a time otherwise (concurrent registrations are property C15)",
     ],
